@@ -78,8 +78,9 @@ type Exec struct {
 	notes       map[string]bool // modelling notes / trusted functions actually used
 	paths       int
 	maxPaths    int
-	appendOwner *Loc          // the heap location the slice being appended to was read from (nil: a local value)
-	genLimit    time.Duration // wall-clock limit for generating the conditions of one function (fail-closed when exceeded)
+	codeReads   map[string]bool // heap keys loaded by the code of the function under verification (never-reads)
+	appendOwner *Loc            // the heap location the slice being appended to was read from (nil: a local value)
+	genLimit    time.Duration   // wall-clock limit for generating the conditions of one function (fail-closed when exceeded)
 	genStart    time.Time
 	tids        map[string]int
 	tidTypes    []types.Type
